@@ -14,6 +14,9 @@ STUBSETS = {
     "nextdata": (["#[kani::stub(scpi::parser::parameters::Parameters::next_data, crate::stubs::next_data_stub)]"],
                  ["Parameters::next_data::<T> -> contract stub: returns the harness's symbolic u8/u16, or -109 / -222 "
                   "(that the real lexer + TryFrom deliver the denoted value is decided in C04/C07)"]),
+    "ascii": (["#[kani::stub(<[u8]>::is_ascii, crate::stubs::is_ascii_stub)]"],
+              ["<[u8]>::is_ascii -> the byte loop of its documentation (core's word-at-a-time implementation after "
+               "align_offset is intractable for CBMC)"]),
     "float": (["#[kani::stub(lexical_core::parse, crate::stubs::lexical_parse_stub)]"],
               ["lexical_core::parse::<f32|f64> -> contract stub returning the harness's symbolic float (integer "
                "requests still run the real lexical-core)"]),
@@ -161,6 +164,64 @@ H("c08_q_accept_matrix", "C08", "c08::accept_matrix", "every (target, element ty
   "Character, Expression, NumericList, ChannelList, f32, f64, bool x character / suffixed / non-decimal / string / block / "
   "expression data: Ok (with the payload unchanged) only for the documented kinds, the documented command error otherwise",
   "3 symbolic payload bytes, any u64 non-decimal value", cap_s=600, mem_gb=4, unwind=8, also=["C01"])
+
+# ---------------------------------------------------------------------------- C09 (K-fmt)
+for t in INTS:
+    wide = t not in ("u8", "i8", "u16", "i16")
+    fams = [(1, "q", "|v| < 100000"), (2, "q", "within 100000 of MIN/MAX"), (0, "ta", "every value")] if wide else [(0, "q", "every value")]
+    for fam, tier, fd in fams:
+        H(f"c09_{tier}_dec_{t}_f{fam}", "C09", f"c09::dec_{t}::<{fam}, _>",
+          f"{t} formatted as decimal response data: an independent <NR1> decoder returns the value ({fd})", f"{t}: {fd}",
+          cap_s=(900 if tier == "q" else 3600), mem_gb=6, unwind=24, sample=(t == "u8"))
+    for radix in (16, 8, 2):
+        small = not wide
+        tier = "q" if (small or radix == 16) else "ta"
+        H(f"c09_{tier}_radix{radix}_{t}", "C09", f"c09::int_nondecimal::<{t}, {radix}, _>",
+          f"{t} (non-negative) formatted as #{'H' if radix == 16 else 'Q' if radix == 8 else 'B'} response data: an independent "
+          f"shift decoder returns the value", f"every non-negative {t}", cap_s=(900 if tier == "q" else 3600), mem_gb=6,
+          unwind=(20 if small else 70))
+H("c09_q_bool_sentinels", "C09", "c09::bool_and_sentinels", "bool -> 0/1; NaN -> 9.91E+37, +-infinity -> +-9.9E+37 exactly, "
+  "for f32 and f64", "both bools; every non-finite f32/f64 bit pattern", cap_s=300, mem_gb=3, unwind=12)
+for n, q, tier in ((0, 0, "q"), (1, 0, "q"), (2, 0, "q"), (3, 0, "q"), (4, 0, "t"), (5, 0, "ta"), (6, 0, "ta"),
+                   (1, 1, "q"), (2, 1, "q"), (3, 1, "q"), (3, 2, "t"), (4, 2, "ta")):
+    qd = "without a double quote" if q == 0 else f"holding {q} double quote(s)"
+    H(f"c09_{tier}_string_n{n}_q{q}_dec", "C09", f"c09::string::<{n}, {q}, {n + 2 + q}, false, _>",
+      f"ASCII byte string of {n} bytes {qd}: the quoted response decodes (independent un-doubling decoder) to the original "
+      f"bytes", f"all ASCII strings of {n} bytes {qd}", cap_s=(900 if tier == "q" else 3600), mem_gb=(6 if n < 4 else 12),
+      unwind=n * 2 + 8, stubset="ascii")
+    if q == 0:
+        H(f"c09_{tier}_string_n{n}_q{q}_own", "C09", f"c09::string::<{n}, {q}, {n + 2 + q}, true, _>",
+          f"ASCII byte string of {n} bytes {qd}: the response re-lexes (own parser) to one string element with the original "
+          f"bytes", f"all ASCII strings of {n} bytes {qd}", cap_s=(900 if tier == "q" else 3600),
+          mem_gb=(6 if n < 4 else 12), unwind=n * 2 + 8, stubset="ascii")
+for n, q in ((1, 1), (2, 1)):
+    H(f"c09_q_kf14_string_n{n}_q{q}_own", "C09", f"c09::string::<{n}, {q}, {n + 2 + q}, true, _>",
+      f"WITNESS of known finding F14: ASCII string of {n} bytes holding a double quote comes back from the own parser with "
+      f"the quote still doubled (tokens are zero-copy slices of the input)", f"all ASCII strings of {n} bytes with {q} "
+      f"double quote(s)", cap_s=900, mem_gb=8, unwind=n * 2 + 8, stubset="ascii")
+for n in (0, 1, 5, 9, 10, 12):
+    m = 2 + len(str(n)) + n
+    H(f"c09_q_block_n{n}", "C09", f"c09::block::<{n}, {m}, _>", f"definite-length block of {n} arbitrary bytes: header "
+      f"states the length with the right digit count, payload identical, own parser returns the payload",
+      f"every payload of {n} bytes (header 1 -> 2 length digits at 10)", cap_s=900, mem_gb=6, unwind=max(n + 6, 24))
+for n in (1, 3, 6, 12):
+    H(f"c09_q_char_n{n}", "C09", f"c09::char_expr::<{n}, {n + 2}, true, _>", f"Character response data of {n} bytes is "
+      f"emitted verbatim", f"all valid character data of {n} bytes", cap_s=900, mem_gb=6, unwind=n + 8)
+for n in (0, 1, 3, 6):
+    H(f"c09_q_expr_n{n}", "C09", f"c09::char_expr::<{n}, {n + 2}, false, _>", f"Expression response data of {n} bytes is "
+      f"emitted in parentheses and read back by the own parser (lexer + Expression::try_from)",
+      f"all valid expression content of {n} bytes", cap_s=900, mem_gb=6, unwind=n + 8)
+for l, tier in ((0, "q"), (1, "q"), (2, "q"), (3, "ta")):
+    H(f"c09_{tier}_list_l{l}", "C09", f"c09::list::<{l}, _>", f"ArrayVec of {l} u16 values: comma-joined decimal elements in "
+      f"order; empty list -> error", f"all u16 element values", cap_s=(1200 if tier == "q" else 3600), mem_gb=8, unwind=24)
+for k, d in ((0, "custom error, symbolic 3-byte printable message"), (1, "custom error with symbolic 2-byte extended text")):
+    H(f"c09_q_error_item_k{k}", "C09", f"c09::error_item::<{k}, _>", f"error-queue item ({d}) formatted as "
+      f"code,\"message[;extended]\": code decodes to the number, the text is a well-formed quoted string that decodes to "
+      f"the message", "all i16 numbers; all printable message / extended bytes (incl. the double quote)", cap_s=1800,
+      mem_gb=16, unwind=16, also=["C13"], stubset="ascii")
+H("c09_q_std_messages_plain", "C09", "c09::std_messages_plain", "every standard error message is printable ASCII without a "
+  "double quote (so formatting a standard error item is the custom-message case)", "all standard variants", cap_s=600,
+  mem_gb=4, unwind=64, also=["C13"])
 
 # ---------------------------------------------------------------------------- C12
 for n in range(1, 7):
